@@ -2,6 +2,7 @@ import NixModel.Basic
 import NixModel.Pure.Dim
 import NixModel.Pure.DataView
 import NixModel.Pure.Units
+import NixModel.Generated.TagShape
 
 /-!
 # Model of the region computation of tags (`nixio/tag.py`, `nixio/multi_tag.py`)
@@ -22,6 +23,13 @@ The per-dimension conversions are the ones of `Pure/Dim.lean` (C07, instantiated
 tolerances), unit scaling is `Pure/Units.lean` (C09), the resulting view is `DataView.mkView` (C06).
 Floats are exact rationals (DESIGN §5).  Array *content* is not modelled here: a result is the view
 (validity + window); what a valid window reads is C06 / C01.
+
+The *decisions* of `_calc_data_slices` / `_slices_in_data` / `feature_data` that are not arithmetic of the
+dimensions or units — the test on the extent entry that keeps the stop rule, the mode otherwise and without an
+entry, the stop position, `slice(a, b + 1)`, the start of a whole axis, the comparison of the stops with the
+data extent, the row test of indexed features, the text that means "no unit" on a set dimension — are the
+definitions of `Generated/TagShape.lean`, re-rendered from the source by `harness/extract/tagshape.py` on every
+run, and are used here as they come (`Gen.…`).
 
 The loop `for idx, dim in enumerate(data.dimensions)` indexes `position[idx]`, `extent[idx]`,
 `units[idx]` and `data.shape[idx]`; the model consumes those lists in lock-step with the dimension
@@ -50,7 +58,10 @@ def DimDesc.unit : DimDesc → Option Str
   | .range _ u => u
   | .set _ => none
 
-def noneStr : Str := ['n', 'o', 'n', 'e']
+def noneStr : Str := Gen.setNoUnitText
+
+/-- `SliceMode.<member>` by member name (the translator accepts only the two members) -/
+def sliceModeNamed (s : String) : SliceMode := if s = "Exclusive" then .exclusive else .inclusive
 
 /-- `BaseTag._scale_position(pos, unit, dim)` → `(pos * scaling, scaling)`.
 Only `InvalidUnit` is caught and turned into `IncompatibleDimensions`. -/
@@ -84,8 +95,9 @@ and the mode is the stop rule when `e > 0` (the *unscaled* entry), `Inclusive` o
 the region is the position itself, inclusive -/
 def stopOf (stop : SliceMode) (start sc : Rat) (e? : Option Rat) : Rat × SliceMode :=
   match e? with
-  | some e => (e * sc + start, if 0 < e then stop else SliceMode.inclusive)
-  | none => (start, SliceMode.inclusive)
+  | some e => (Gen.stopPos e sc start,
+      if Gen.extentKeepsStopRule e then stop else sliceModeNamed Gen.extentElseMode)
+  | none => (start, sliceModeNamed Gen.noExtentMode)
 
 /-- loop body of `_calc_data_slices` for `idx < len(position)`:
 `range_indices if range_indices is None else slice(range_indices[0], range_indices[1] + 1)` -/
@@ -97,7 +109,7 @@ def axisSlice (stop : SliceMode) (dim : DimDesc) (p : Rat) (e? : Option Rat) (un
     match dimRangeIndices dim start (stopOf stop start sc e?).1 (stopOf stop start sc e?).2 with
     | .error e => .error e
     | .ok none => .ok none
-    | .ok (some (a, b)) => .ok (some (a, b + 1))
+    | .ok (some (a, b)) => .ok (some (Gen.sliceOf a b))
 
 /-- `units[idx]`: `units = none` is the branch `units = [None] * len(data.dimensions)` -/
 def nextUnit : Option (List Str) → Except Err (Option Str × Option (List Str))
@@ -132,16 +144,16 @@ def calcSlices (stop : SliceMode) : List DimDesc → List Nat → List Rat → L
     | n :: shape' =>
       match calcSlices stop dims shape' [] ext units with
       | .error e => .error e
-      | .ok ws => .ok (some (0, (n : Int)) :: ws)
+      | .ok ws => .ok (some (Gen.wholeAxisStart, (n : Int)) :: ws)
 
 /-- `np.all(np.less_equal(stops, dasize))` with NumPy's broadcasting of two 1-D operands -/
 def npAllLe (stops : List Int) (ext : List Nat) : Except Err Bool :=
   if stops.length = ext.length then
-    .ok ((stops.zip ext).all fun se => decide (se.1 ≤ (se.2 : Int)))
+    .ok ((stops.zip ext).all fun se => Gen.stopInData se.1 (se.2 : Int))
   else
     match stops, ext with
-    | [s], _ => .ok (ext.all fun n => decide (s ≤ (n : Int)))
-    | _, [n] => .ok (stops.all fun s => decide (s ≤ (n : Int)))
+    | [s], _ => .ok (ext.all fun n => Gen.stopInData s (n : Int))
+    | _, [n] => .ok (stops.all fun s => Gen.stopInData s (n : Int))
     | _, _ => .error .valueError
 
 /-- `BaseTag._slices_in_data(data, slices)` -/
@@ -293,7 +305,7 @@ def MultiTag.featureData (t : MTagDesc) (nfeats posidx : Nat) (link : LinkType) 
       match data.shape with
       | [] => .error .indexError                                           -- `data.data_extent[0]`
       | rows :: rest =>
-        if posidx > rows then .error .outOfBounds
+        if Gen.indexedRowBeyond posidx rows then .error .outOfBounds
         else viewIfInData data.shape (some ((posidx : Int), (posidx : Int) + 1) :: fullWindows rest)
     | .untagged => .ok (mkView data.shape (some (fullWindows data.shape)))
 
